@@ -150,7 +150,7 @@ def homog_request(ctx, c, n):
         return [inst(x) if not isinstance(x, int) else x for x in spec]
     return {"function": c.name, "params": params, "types": [list(t) for t in sig[1]],
             "dims": {k: inst(v) for k, v in c.params.items()}, "returns": inst(c.returns), "gen": c.gen, "seed": ctx.seed, "n": n, "scales": G2_SCALES[ctx.tier],
-            "axes": ["T"], "rtol": 1e-6}
+            "axes": list(c.axes), "rtol": 1e-6}
 
 
 def run_g2(ctx, names=None, homogeneity=True):
